@@ -217,7 +217,8 @@ Proof. repeat split; reflexivity. Qed.
    import, the permission-gated message handler, the proposal handler and each other *)
 Theorem write_paths_ok :
   store_key_users = pinned_store_key_users /\ setter_callers = pinned_setter_callers /\
-  msg_gate_ok = true /\ msg_gate_perm = pinned_gate_perm.
+  msg_gate_ok = true /\ msg_gate_perm = pinned_gate_perm /\
+  genesis_error_handling = pinned_genesis_error_handling.
 Proof. repeat split; reflexivity. Qed.
 
 Definition example_props : props :=
